@@ -15,6 +15,7 @@ func TestSim(t *testing.T) {
 		&simrt.Harness{Name: "pool", Body: func(s *simrt.Sim) { pool(s, false) }},
 		&simrt.Harness{Name: "restart", Body: func(s *simrt.Sim) { pool(s, true) }},
 		&simrt.Harness{Name: "group", Body: group},
+		&simrt.Harness{Name: "grouptree", Body: groupTree},
 	)
 }
 
@@ -25,8 +26,6 @@ type subm struct {
 	starts    int
 	finished  bool
 	startStep uint64
-	counted   bool
-	early     bool // finished before its Submit call returned
 }
 
 type window struct{ from, to uint64 } // Start returned .. Shutdown invoked (0 = open)
@@ -44,18 +43,62 @@ type world struct {
 	windows  []*window
 	shuts    []*callIv
 	panicOpt bool
-	pending  int    // ghost: tasks whose Submit returned accepted and whose function has not finished
-	timeline []tlev // (a subset of the truly pending tasks at every instant)
+	// ghost of the number of pending tasks, a lower bound at every instant: +1 when an accepted Submit call has
+	// returned (the real increase happened inside the call), -1 when a task function has finished (the real decrease
+	// follows), and for a task that is cancelled by a shutdown -1 at the step that shutdown was invoked (the earliest
+	// moment the cancellation can have happened; the harness observes it only afterwards, behind the group's own
+	// subscription). Evaluated after quiescence, when all events are known.
+	gevents      []gev
+	justFinished map[*simrt.Task]bool
+	shutdownInv  uint64
 }
 
-type tlev struct {
-	step uint64
-	val  int
+type gev struct {
+	step  uint64
+	delta int
 }
 
-func (w *world) ghost(d int) {
-	w.pending += d
-	w.timeline = append(w.timeline, tlev{w.s.Tick(), w.pending})
+// pendingAt is the ghost's lower bound of the number of pending tasks at step t.
+func (w *world) pendingAt(t uint64) int {
+	sum := 0
+	for _, e := range w.gevents {
+		if e.step <= t {
+			sum += e.delta
+		}
+	}
+	return max(0, sum)
+}
+
+type waitRec struct {
+	worlds   []*world
+	name     string
+	inv, ret uint64
+}
+
+// check: a wait on a group may only return if, at some instant of the call, nothing was pending below the group.
+func (r *waitRec) check(s *simrt.Sim) {
+	pts := []uint64{r.inv, r.ret}
+	for _, w := range r.worlds {
+		for _, e := range w.gevents {
+			if e.step > r.inv && e.step < r.ret {
+				pts = append(pts, e.step)
+			}
+		}
+	}
+	for _, t := range pts {
+		sum := 0
+		for _, w := range r.worlds {
+			sum += w.pendingAt(t)
+		}
+		if sum == 0 {
+			return
+		}
+	}
+	var ev []string
+	for i, w := range r.worlds {
+		ev = append(ev, fmt.Sprintf("pool%d%v", i, w.gevents))
+	}
+	s.Fail("waitchildren", "returned-while-pending"+r.name, "wait on group%s returned in [%d,%d] although tasks were pending below it the whole time; ghost events %v", r.name, r.inv, r.ret, ev)
 }
 
 func (w *world) watch(p *workerpool.WorkerPool) {
@@ -73,6 +116,17 @@ func (w *world) watch(p *workerpool.WorkerPool) {
 			w.accepted++
 		} else {
 			w.decr++
+			cur := simrt.Current()
+			if w.justFinished[cur] {
+				w.justFinished[cur] = false // accounted for when the function finished
+			} else {
+				// the task was cancelled (shutdown of a pool that cancels pending tasks)
+				at := w.shutdownInv
+				if at == 0 {
+					at = w.s.Tick()
+				}
+				w.gevents = append(w.gevents, gev{at, -1})
+			}
 		}
 	})
 }
@@ -95,9 +149,8 @@ func (w *world) submit(p *workerpool.WorkerPool, id string, yields int, nested i
 		s.Probe("submit-rejected-by-panic")
 	}
 	sb.ret = s.Tick()
-	if sb.accepted && !sb.early {
-		sb.counted = true
-		w.ghost(1)
+	if sb.accepted {
+		w.gevents = append(w.gevents, gev{sb.ret, 1})
 	}
 	w.inflight[me] = prev
 	s.Logf("submit %s accepted=%v panicked=%v", id, sb.accepted, panicked)
@@ -125,11 +178,11 @@ func (w *world) doSubmit(p *workerpool.WorkerPool, sb *subm, id string, yields i
 			w.submit(p, fmt.Sprintf("%s.n%d", id, i), 0, 0)
 		}
 		sb.finished = true
-		if sb.counted {
-			w.ghost(-1)
-		} else {
-			sb.early = true
+		if w.justFinished == nil {
+			w.justFinished = map[*simrt.Task]bool{}
 		}
+		w.justFinished[simrt.Current()] = true
+		w.gevents = append(w.gevents, gev{s.Tick(), -1})
 		s.Logf("task %s done", id)
 	})
 }
@@ -280,8 +333,8 @@ func pool(s *simrt.Sim, restart bool) {
 func group(s *simrt.Sim) {
 	w := &world{s: s, inflight: map[*simrt.Task]*subm{}}
 	g := workerpool.NewGroup("root")
-	w.timeline = []tlev{{0, 0}}
 	var pools []*workerpool.WorkerPool
+	var waits []*waitRec
 	mk := func(gr *workerpool.Group, name string) {
 		p := gr.CreatePool(name, workerpool.WithWorkerCount(1+s.Choose(2)))
 		w.watch(p)
@@ -319,34 +372,16 @@ func group(s *simrt.Sim) {
 			}
 			inv := s.Tick()
 			g.WaitChildren()
-			ret := s.Tick()
-			ok := false
-			cur := 0
-			for _, e := range w.timeline {
-				if e.step <= inv {
-					cur = e.val
-					continue
-				}
-				if cur == 0 {
-					ok = true
-				}
-				cur = e.val
-				if e.step > ret {
-					break
-				}
-			}
-			if cur == 0 {
-				ok = true
-			}
-			if !ok {
-				s.Fail("waitchildren", "returned-while-pending", "WaitChildren returned in [%d,%d] although tasks were pending the whole time: %v", inv, ret, w.timeline)
-			}
+			waits = append(waits, &waitRec{worlds: []*world{w}, inv: inv, ret: s.Tick()})
 		})
 	}
 	left := s.Quiesce()
 	hx.Stuck(s, "termination", left, func(t simrt.TaskInfo) bool {
 		return strings.HasPrefix(t.Name, "submitter") || strings.HasPrefix(t.Name, "waiter")
 	})
+	for _, r := range waits {
+		r.check(s)
+	}
 	for _, p := range pools {
 		if v := p.PendingTasksCounter.Get(); v != 0 {
 			s.Fail("conservation", "counter-nonzero", "pending counter of %s is %d at quiescence", p.Name, v)
@@ -379,6 +414,155 @@ func group(s *simrt.Sim) {
 	}
 	if w.decr != w.accepted {
 		s.Fail("conservation", "counter-imbalance", "%d accepted, %d finished", w.accepted, w.decr)
+	}
+	hx.Stuck(s, "termination", left, nil)
+}
+
+// grouptree ---------------------------------------------------------------------------------------
+// A tree root -> mid -> leaf with pools at every level; waiters on every level; optionally a subgroup is shut down
+// while submitters are still running.
+
+type gnode struct {
+	g     *workerpool.Group
+	name  string
+	pools []int // indexes of the pools at or below this group
+}
+
+func groupTree(s *simrt.Sim) {
+	root := workerpool.NewGroup("root")
+	var worlds []*world
+	var pools []*workerpool.WorkerPool
+	mk := func(gr *workerpool.Group, name string) int {
+		w := &world{s: s, inflight: map[*simrt.Task]*subm{}}
+		p := gr.CreatePool(name, workerpool.WithWorkerCount(1+s.Choose(2)))
+		w.watch(p)
+		w.windows = append(w.windows, &window{from: s.Tick()})
+		worlds = append(worlds, w)
+		pools = append(pools, p)
+		return len(pools) - 1
+	}
+	nodes := []*gnode{{g: root, name: "root"}}
+	nodes[0].pools = append(nodes[0].pools, mk(root, "r"))
+	depth := 1 + s.Choose(3)
+	cur := root
+	for d := 1; d < depth; d++ {
+		name := []string{"", "mid", "leaf"}[d]
+		sub := cur.CreateGroup(name)
+		n := &gnode{g: sub, name: name}
+		npools := 1 + s.Choose(2)
+		for k := 0; k < npools; k++ {
+			pi := mk(sub, fmt.Sprintf("%s%d", name, k))
+			for _, anc := range nodes {
+				anc.pools = append(anc.pools, pi)
+			}
+			n.pools = append(n.pools, pi)
+		}
+		nodes = append(nodes, n)
+		cur = sub
+	}
+	s.Logf("tree depth=%d pools=%d", depth, len(pools))
+	var waits []*waitRec
+	below := func(n *gnode) (l []*world) {
+		for _, pi := range n.pools {
+			l = append(l, worlds[pi])
+		}
+		return l
+	}
+	nsub := 1 + s.Choose(3)
+	for i := 0; i < nsub; i++ {
+		n := 1 + s.Choose(3)
+		type spec struct{ pool, yields, nested int }
+		specs := make([]spec, n)
+		for j := range specs {
+			specs[j] = spec{s.Choose(len(pools)), s.Choose(3), s.Choose(2)}
+		}
+		s.Go(fmt.Sprintf("submitter%d", i), func() {
+			for j, sp := range specs {
+				worlds[sp.pool].submit(pools[sp.pool], fmt.Sprintf("t%d.%d", i, j), sp.yields, sp.nested)
+			}
+		})
+	}
+	nwait := 1 + s.Choose(3)
+	for i := 0; i < nwait; i++ {
+		d := s.Choose(5)
+		n := nodes[s.Choose(len(nodes))]
+		parents := s.Choose(4) == 3
+		s.Go(fmt.Sprintf("waiter%d", i), func() {
+			for k := 0; k < d; k++ {
+				simrt.Yield()
+			}
+			inv := s.Tick()
+			target := n
+			if parents {
+				n.g.WaitParents() // waits on the root
+				target = nodes[0]
+			} else {
+				n.g.WaitChildren()
+			}
+			ret := s.Tick()
+			s.Logf("wait on %s (parents=%v) returned", n.name, parents)
+			waits = append(waits, &waitRec{worlds: below(target), name: ":" + target.name, inv: inv, ret: ret})
+		})
+	}
+	// optionally shut a subgroup down while the submitters are still at work
+	if len(nodes) > 1 && s.Choose(2) == 1 {
+		n := nodes[1+s.Choose(len(nodes)-1)]
+		d := s.Choose(6)
+		s.Go("subshutdown", func() {
+			for k := 0; k < d; k++ {
+				simrt.Yield()
+			}
+			t := s.Tick()
+			for _, pi := range n.pools {
+				worlds[pi].windows[0].to = t
+				worlds[pi].shutdownInv = t
+			}
+			s.Logf("Shutdown of group %s", n.name)
+			n.g.Shutdown()
+			s.Logf("Shutdown of group %s returned", n.name)
+		})
+	}
+	left := s.Quiesce()
+	hx.Stuck(s, "termination", left, func(t simrt.TaskInfo) bool {
+		return strings.HasPrefix(t.Name, "submitter") || strings.HasPrefix(t.Name, "waiter") || t.Name == "subshutdown"
+	})
+	for _, r := range waits {
+		r.check(s)
+	}
+	for i, p := range pools {
+		if v := p.PendingTasksCounter.Get(); v != 0 {
+			s.Fail("conservation", "counter-nonzero", "pending counter of %s is %d at quiescence", p.Name, v)
+		}
+		w := worlds[i]
+		if w.decr != w.accepted {
+			s.Fail("conservation", "counter-imbalance", "pool %s: %d accepted, %d run-or-cancelled", p.Name, w.accepted, w.decr)
+		}
+		for _, sb := range w.subs {
+			if sb.starts > 1 {
+				s.Fail("exactly-once", "run-twice", "task %s ran %d times", sb.id, sb.starts)
+			}
+			win := w.windows[0]
+			if !sb.accepted && sb.ret != 0 && sb.inv > win.from && (win.to == 0 || sb.ret < win.to) {
+				s.Fail("conservation", "dropped-in-running-window", "Submit of %s to pool %s inside its running window was not accepted", sb.id, p.Name)
+			}
+		}
+	}
+	for _, n := range nodes {
+		if v := n.g.PendingChildrenCounter.Get(); v != 0 {
+			s.Fail("conservation", "group-counter-nonzero:"+n.name, "pending-children counter of group %s is %d at quiescence", n.name, v)
+		}
+	}
+	done := false
+	s.Go("groupshutdown", func() {
+		root.Shutdown()
+		for _, p := range pools {
+			p.ShutdownComplete.Wait()
+		}
+		done = true
+	})
+	left = s.Quiesce()
+	if !done {
+		s.Fail("termination", "groupshutdown", "root Shutdown + ShutdownComplete.Wait did not terminate: %v", left)
 	}
 	hx.Stuck(s, "termination", left, nil)
 }
